@@ -32,11 +32,23 @@ CHECKS = {
         note="The predicate is the property's own wording; text is compared modulo trailing whitespace (EOF tokens carry an empty line). TokenError outcomes are outside C11.",
         ref="DESIGN.md §4 C11",
     ),
+    "C13": dict(
+        technique="stateful (model-based) property testing: a Hypothesis RuleBasedStateMachine drives sequences of parse / parse_file / threaded-parse / keep steps over a pool of inputs in one process; the model is the table of outcomes computed in fresh interpreters",
+        text="Exploration over call histories and sampled thread schedules: every result must equal the fresh-interpreter reference, kept trees must re-dump identically after every later step, module singletons must stay attribute-free. Histories of one worker share a process, so state also carries across histories. Held on everything generated; thread interleavings are sampled, not enumerated.",
+        note="Reference outcomes come from batched fresh interpreters, cross-checked against one-parse-per-process for a sample. Schedules are varied through thread count, start barrier and sys.setswitchinterval only.",
+        ref="DESIGN.md §4 C13",
+    ),
     "C14": dict(
         technique="metamorphic property-based testing: random lists of complete statement sequences (generated Python, corpus, f-strings, every xonsh statement form incl. generated macros); parse(concatenation) must equal the line-shifted concatenation of the parts' own parses, with positions",
         text="Exploration: the relation between whole and parts is the oracle, so xonsh statements are checkable without a reference parser. Histogram over ordered pairs of statement kinds in the evidence. Held on everything generated.",
         note="Parts that do not parse alone are discarded (counted). Parts never start with a blank/comment line because the suite documents that such a line after a with-macro block belongs to the macro.",
         ref="DESIGN.md §4 C14",
+    ),
+    "C15": dict(
+        technique="metamorphic property-based testing over the option space: every generated input (valid, invalid, xonsh, version-gated) is parsed in all 28 cells of verbose x py_version x mode and the canonical outcomes are related (verbose vs quiet equality; monotone version gating derived from the default tree)",
+        text="Exploration: verbose never changes the outcome; lowering py_version only turns acceptance of except*/type parameters/type statements into a SyntaxError naming the required version; rejected inputs stay rejected in every cell. Held on everything generated.",
+        note="The gate of an input is computed from its default tree (TypeAlias / type_params -> 3.12, TryStar -> 3.11). Verbose output is discarded by redirecting sys.stdout.",
+        ref="DESIGN.md §4 C15",
     ),
     "C16": dict(
         category="translation_validation",
